@@ -12,7 +12,17 @@ Monitors (DESIGN.md section 3, C02):
   alias  the table of keystroke-saver flags, --F/--iF/--oF/-i/-o/--io forms, `or` spellings,
          named separators and .mlrrc lines is enumerated from the binary's own help output and
          each entry is run against its documented expansion on a battery of inputs
-         (stdout + exit status byte-identical)
+         (stdout + exit status byte-identical); an expansion that fails on a well-formed battery input is itself a violation;
+         every DOCUMENTED spelling of one selection (--iN / -i N, --oN / -o N, --N / --io N / -i N -o N / --iN --oN; names taken from
+         reference-main-flag-list.md, shell-completion.md and the pages' examples, not from what the binary accepts) must give
+         identical bytes - a rejected documented spelling is a violation; .mlrrc lookup ($HOME, $XDG_CONFIG_HOME, default XDG
+         directory, ./, MLRRC=<file>, MLRRC=__none__, unloadable MLRRC, --norc), stacking order, named profiles (-P / --profile)
+         and the documented refusals (prepipe / load / mload / profile lines, unknown profile, profile with --norc)
+  decide the documented auto-flatten / auto-unflatten DECISION (flatten-unflatten.md, Manual control) as a model over
+         (input format x output format x verb chain ending in cat / flatten / unflatten / a DSL verb that makes maps x
+         --no-auto-flatten / --no-auto-unflatten x flatten separator x spelling of the selection): 16 input formats, 17 output
+         formats incl. jsonl, yaml, nidx, markdown, dkvpx, tsvlite, usv, asv, recutils, dcf; the output text is read by an
+         independent reader and compared with the records the documented rule predicts
 """
 import hashlib
 import random
@@ -23,6 +33,7 @@ from ..harness import add_violation, bump, case_result
 from ..model import codecs as C
 from ..model import formats as F
 from ..model import docreplay
+from ..model import c02_extra as X
 
 BINARIES = ("mlr-verif",)
 LEVEL = "exploration"
@@ -51,8 +62,6 @@ SENTENCE_NAMES = {
     "markdown-tabular": "md", "YAML": "yaml", "Debian control file (DCF)": "dcf", "GNU recutils (.rec)": "recutils",
     "markdown": "md", "Markdown": "md", "JSONL": "jsonl", "markdown tabular": "md",
 }
-# names documented for -i / -o / --io (shell-completion.md, file-formats.md)
-IO_NAMES = ["csv", "csvlite", "tsv", "json", "dkvp", "dkvpx", "nidx", "xtab", "pprint", "markdown", "yaml", "dcf", "recutils"]
 
 # documented separator aliases (hard-coded copy of reference-main-separators.md, so that a changed table entry in
 # the binary cannot vouch for itself)
@@ -146,6 +155,22 @@ def alias_case(case):
     inputs = case["inputs"]
     nontriv_out = False
     alias_ok = False
+    if case.get("expect_fail"):
+        # a documented refusal: the spelling must NOT be accepted
+        name, data = inputs[0]
+        a_argv = case["alias"] + tail
+        ra = R.mlr(a_argv, stdin=data, env=env, files=files, wrapper=case.get("wrapper"))
+        res["evals"] += 1
+        if ra.verdict == "slow":
+            res["inconc"] += 1
+        elif ra.rc == 0 or ra.signal is not None or ra.verdict != "exited":
+            add_violation(res, {"kind": "alias", "group": case["group"], "alias": case["label"], "what": "documented-refusal-not-refused"},
+                          f"{case['label']}: documented as an error ({case.get('doc', '')}) but exits rc={ra.rc} signal={ra.signal} verdict={ra.verdict}",
+                          {"argv": a_argv, "stdin": data, "env": env, "files": files, "stdout": _short(ra.stdout, 500), "stderr": ra.err[:500]})
+        else:
+            bump(res, "alias_refusals_held")
+        res["sample"] = {"monitor": "alias", "alias": case["alias"], "expect": "refused"}
+        return res
     for name, data in inputs:
         a_argv = case["alias"] + tail
         e_argv = case["expansion"] + tail
@@ -164,6 +189,12 @@ def alias_case(case):
             sig_base["trait"] = case["trait"]
         if ra.rc == 0:
             alias_ok = True
+        schema_change = name in ("hetero", "nested", "keyless") and "schema change" in re_.err     # documented data error of the CSV/TSV writers
+        if case.get("must_succeed") and not re_.ok and not schema_change:
+            # every battery input is inside the input format's documented domain: an expansion that fails on it makes the equality below vacuous
+            add_violation(res, dict(sig_base, what="expansion-fails"),
+                          f"{case['label']}: the documented expansion {' '.join(case['expansion'])} fails (rc={re_.rc} signal={re_.signal} {re_.verdict}) on the "
+                          f"well-formed battery input {name}: {re_.err[:160]!r}", dict(det, stderr_expansion=re_.err[:500]))
         if sa != se:
             add_violation(res, dict(sig_base, what="status"),
                           f"{case['label']} exits {sa[1:]} but its documented expansion {' '.join(case['expansion'])} exits {se[1:]} on input {name}",
@@ -185,6 +216,76 @@ def alias_case(case):
         res["stats"]["alias_entries_without_output"] = [case["label"]]
     res["sample"] = {"monitor": "alias", "alias": case["alias"], "expansion": case["expansion"], "inputs": [n for n, _ in inputs]}
     return res
+
+
+def spelling_case(case):
+    """Every documented spelling of ONE selection (format name x side) gives the same bytes and the same exit status."""
+    res = case_result(_h("spell", case["name"], case["side"]), len(case["spellings"]) > 1, evals=0)
+    bump(res, "alias_entries:selection-spelling")
+    reported = set()
+    any_out = False
+    for iname, data in case["inputs"]:
+        runs = []
+        for label, argv in case["spellings"]:
+            r = R.mlr(argv + ["cat"], stdin=data)
+            res["evals"] += 1
+            if r.verdict == "slow":
+                res["inconc"] += 1
+                continue
+            runs.append((label, argv, r))
+        if len(runs) < 2:
+            continue
+        ref = next((x for x in runs if x[2].ok), runs[0])
+        if ref[2].ok and ref[2].stdout:
+            any_out = True
+        for label, argv, r in runs:
+            if (label, argv, r) is ref or label in reported:
+                continue
+            what = None
+            if (r.rc, r.signal) != (ref[2].rc, ref[2].signal):
+                what = "rejected" if ref[2].ok and r.rc not in (0, None) else "status"
+            elif r.stdout != ref[2].stdout:
+                what = "stdout"
+            if what:
+                reported.add(label)
+                add_violation(res, {"kind": "selection-spelling", "name": case["name"], "side": case["side"], "spelling": label, "what": what},
+                              f"{label} (documented spelling of: {case['side']} format {case['name']}) "
+                              f"{'is rejected' if what == 'rejected' else 'differs in ' + what} while {ref[0]} works, input {iname}: {r.err[:160]!r}",
+                              {"argv": argv + ["cat"], "argv_reference": ref[1] + ["cat"], "stdin": data, "documented": case["doc"],
+                               "stdout": _short(r.stdout, 800), "stdout_reference": _short(ref[2].stdout, 800), "stderr": r.err[:500]})
+            else:
+                bump(res, "spelling_runs_equal")
+    if not any_out:
+        res["nontrivial"] = False
+    res["sample"] = {"monitor": "alias", "selection": [case["side"], case["name"]], "spellings": [l for l, _ in case["spellings"]]}
+    return res
+
+
+def spelling_cases(chk):
+    """Names and flags as the DOCUMENTATION lists them (reference-main-flag-list.md File-format flags, shell-completion.md,
+    `-i NAME` occurrences in the pages): `-i N` is the same as `--iN`, `-o N` as `--oN`, `--io N` as `--N`."""
+    full = not chk.quick()
+    flags = X.documented_format_flags()
+    names = sorted(set(flags) | set(X.documented_io_names()))
+    bat = {"asvlite": "asv", "usvlite": "usv"}
+    cases = []
+    for n in names:
+        f = flags.get(n, {"i": [], "o": [], "io": []})
+        doc = "reference-main-flag-list.md: `-i csv` is the same as `--icsv`; `-o csv` is the same as `--ocsv`; `--io csv` is the same as `--csv`"
+        try:
+            inp = battery(bat.get(n, n), full)
+        except KeyError:
+            continue
+        inp = [x for x in inp if x[0] != "empty"] + [x for x in inp if x[0] == "empty"][:1 if full else 0]
+        sp_i = [(x, [x, "--ojson"]) for x in f["i"]] + [("-i " + n, ["-i", n, "--ojson"])]
+        sp_o = [(x, [x]) for x in f["o"]] + [("-o " + n, ["-o", n])]
+        sp_io = [(x, [x]) for x in f["io"]] + [("--io " + n, ["--io", n]), ("-i %s -o %s" % (n, n), ["-i", n, "-o", n])]
+        if f["i"] and f["o"]:
+            sp_io.append((f["i"][0] + " " + f["o"][0], [f["i"][0], f["o"][0]]))
+        cases.append({"name": n, "side": "input", "spellings": sp_i, "inputs": inp, "doc": doc})
+        cases.append({"name": n, "side": "output", "spellings": sp_o, "inputs": battery("dkvp", full)[:3], "doc": doc})
+        cases.append({"name": n, "side": "both", "spellings": sp_io, "inputs": inp, "doc": doc})
+    return cases, {"selection_names_from_documentation": names}
 
 
 def _help(args):
@@ -322,17 +423,6 @@ def build_alias_table(chk):
             add("format-flag", first + " (csvlite+separators)", [first], exp, infmt, doc="file-formats.md: ASV/USV = CSV-lite with FS/RS " + name)
         for sp in spellings[1:]:
             add("or-spelling", sp + " = " + first, [sp], [first], infmt, doc=line.strip())
-        # -i / -o / --io
-        io_name = {"md": "markdown"}.get(name, name)
-        if io_name in IO_NAMES:
-            if which == "input":
-                add("io-form", "-i " + io_name, ["-i", io_name], [first], infmt, doc="-i {format name}: `-i csv` is the same as `--icsv`")
-            elif which == "output":
-                add("io-form", "-o " + io_name, ["-o", io_name], [first], "dkvp", doc="-o {format name}: `-o csv` is the same as `--ocsv`")
-            else:
-                add("io-form", "--io " + io_name, ["--io", io_name], [first], infmt, doc="--io {format name}: `--io csv` is the same as `--csv`")
-                add("io-form", "-i/-o " + io_name, ["-i", io_name, "-o", io_name], [first], infmt, doc="-i/-o {format name}")
-    add("io-form", "-i md", ["-i", "md"], ["--imd"], "md", doc="--imd or --imarkdown")
     # ---- 3. `or` spellings of option flags, each in a context where the option matters
     contexts = {
         "--allow-ragged-csv-input": (["--icsv", "--ojson"], [("ragged", b"a,b,c\n1,2\n3,4,5,6\n")]),
@@ -455,6 +545,64 @@ def build_alias_table(chk):
     cases.append({"group": "mlrrc", "label": "--norc", "alias": ["--norc"], "expansion": [], "inputs": battery("dkvp", full),
                   "env": {"MLRRC": "rcfile"}, "files": {"rcfile": b"ojson\n"}, "doc": "--norc: Do not load a .mlrrc file", "must_succeed": True,
                   "env_expansion": None})
+    # ---- 6. where .mlrrc files are looked for, stacking order, profiles, refusals (customization.md)
+    UNSET = ["env", "-u", "MLRRC", "-u", "XDG_CONFIG_HOME"]
+    csvb = battery("csv", full)
+
+    def rc(label, files, expansion, alias=None, env=None, wrapper=UNSET, inputs=None, doc="", **kw):
+        facts["mlrrc_forms"] += 1
+        cases.append(dict({"group": "mlrrc", "label": label, "alias": alias or [], "expansion": expansion, "inputs": inputs or csvb, "env": env,
+                           "files": {k: v.encode() for k, v in files.items()}, "wrapper": wrapper, "doc": "customization.md: " + doc,
+                           "must_succeed": True}, **kw))
+    H = {"HOME": "h"}
+    HX = {"HOME": "h", "XDG_CONFIG_HOME": "x"}
+    rc("$HOME/.mlrrc", {"h/.mlrrc": "icsv\nojson\n"}, ["--icsv", "--ojson"], env=H, doc="If $HOME/.mlrrc exists, it's processed")
+    rc("$XDG_CONFIG_HOME/miller/mlrrc", {"x/miller/mlrrc": "icsv\nojson\n"}, ["--icsv", "--ojson"], env=HX, wrapper=["env", "-u", "MLRRC"],
+       doc="$XDG_CONFIG_HOME/miller/mlrrc")
+    rc("$HOME/.config/miller/mlrrc (XDG_CONFIG_HOME unset)", {"h/.config/miller/mlrrc": "icsv\noxtab\n"}, ["--icsv", "--oxtab"], env=H,
+       doc="If $XDG_CONFIG_HOME isn't set, $HOME/.config/miller/mlrrc is used instead")
+    rc("stacking $HOME then XDG then ./", {"h/.mlrrc": "icsv\nojson\n", "x/miller/mlrrc": "oxtab\n", ".mlrrc": "opprint\n"},
+       ["--icsv", "--ojson", "--oxtab", "--opprint"], env=HX, wrapper=["env", "-u", "MLRRC"], doc="each of the following which exists is processed in turn, letting them stack")
+    rc("stacking $HOME then XDG", {"h/.mlrrc": "icsv\nojson\n", "x/miller/mlrrc": "oxtab\n"}, ["--icsv", "--ojson", "--oxtab"], env=HX,
+       wrapper=["env", "-u", "MLRRC"], doc="stacking order")
+    rc("stacking $HOME then ./", {"h/.mlrrc": "icsv\nojson\njvstack\n", ".mlrrc": "ojsonl\n"}, ["--icsv", "--ojson", "--jvstack", "--ojsonl"], env=H,
+       doc="stacking order")
+    rc("stacking, ./ separators over $HOME", {"h/.mlrrc": "icsv\nocsv\nofs ;\n", ".mlrrc": "ofs tab\n"}, ["--icsv", "--ocsv", "--ofs", ";", "--ofs", "tab"], env=H,
+       doc="stacking order")
+    rc("stacking + command line wins", {"h/.mlrrc": "icsv\nojson\n", ".mlrrc": "opprint\n"}, ["--icsv", "--ojson", "--opprint", "--oxtab"], alias=["--oxtab"],
+       env=H, doc="the command line overrides")
+    rc("MLRRC=<file> set: home/XDG/cwd files ignored", {"rcfile": "icsv\nojson\n", "h/.mlrrc": "oxtab\n", "x/miller/mlrrc": "otsv\n", ".mlrrc": "opprint\n"},
+       ["--icsv", "--ojson"], env={"MLRRC": "rcfile", "HOME": "h", "XDG_CONFIG_HOME": "x"}, wrapper=None,
+       doc="Any .mlrrc in your home directory, XDG config directory, or current directory is ignored whenever MLRRC is set")
+    rc("MLRRC=__none__: nothing processed", {"h/.mlrrc": "oxtab\n", "x/miller/mlrrc": "otsv\n", ".mlrrc": "opprint\n"}, [],
+       env={"MLRRC": "__none__", "HOME": "h", "XDG_CONFIG_HOME": "x"}, wrapper=None, inputs=battery("dkvp", full), doc="If its value is __none__ then no .mlrrc files are processed")
+    rc("MLRRC=<unloadable file>: silently skipped, others still ignored", {"h/.mlrrc": "oxtab\n", "x/miller/mlrrc": "otsv\n", ".mlrrc": "opprint\n"}, [],
+       env={"MLRRC": "no-such-file", "HOME": "h", "XDG_CONFIG_HOME": "x"}, wrapper=None, inputs=battery("dkvp", full), trait="MLRRC-unloadable",
+       doc="If the file can't be loaded at all, though, it is silently skipped. / Any .mlrrc in your home directory, XDG config directory, or current "
+           "directory is ignored whenever MLRRC is set in the environment")
+    rc("--norc with $HOME/.mlrrc and ./.mlrrc", {"h/.mlrrc": "oxtab\n", ".mlrrc": "opprint\n"}, [], alias=["--norc"], env=H, inputs=battery("dkvp", full),
+       doc="--norc: Do not load a .mlrrc file")
+    PROF = "icsv\n\n[j]\n# only with -P j\nojson\njvstack\n\n[ tsvout ]   # comment after header\notsv\n\n[j]\njlistwrap\n\n[broken]\nno-such-flag-at-all\n"
+    PE = {"MLRRC": "rcfile"}
+    for lab, al, exp in (("no --profile: sections ignored (even unparseable ones)", [], ["--icsv"]), ("-P j (two [j] blocks, in order)", ["-P", "j"], ["--icsv", "--ojson", "--jvstack", "--jlistwrap"]),
+                         ("--profile j", ["--profile", "j"], ["--icsv", "--ojson", "--jvstack", "--jlistwrap"]),
+                         ("--profile tsvout ([ tsvout ] header)", ["--profile", "tsvout"], ["--icsv", "--otsv"]),
+                         ("-P j + command line wins", ["-P", "j", "--oxtab"], ["--icsv", "--ojson", "--jvstack", "--jlistwrap", "--oxtab"])):
+        rc("profiles: " + lab, {"rcfile": PROF}, exp, alias=al, env=PE, wrapper=None, doc="Named profiles in your .mlrrc")
+    rc("profiles: per-file order across $HOME and ./", {"h/.mlrrc": "icsv\n[j]\nojson\n", ".mlrrc": "oxtab\n[k]\notsv\n"}, ["--icsv", "--ojson", "--oxtab"],
+       alias=["-P", "j"], env=H, doc="each file's global settings and matching section settings are applied in that per-file order. The selected profile needs to exist in only one of them")
+    for lab, al, files, env_, wr in (
+            ("-P nosuch", ["-P", "nosuch"], {"rcfile": PROF}, PE, None), ("-P J (case-sensitive)", ["-P", "J"], {"rcfile": PROF}, PE, None),
+            ("-P j --norc", ["-P", "j", "--norc"], {"rcfile": PROF}, PE, None), ("-P j with MLRRC=__none__", ["-P", "j"], {".mlrrc": PROF}, {"MLRRC": "__none__"}, None),
+            ("-P j, no .mlrrc anywhere", ["-P", "j"], {"unrelated": "x"}, H, UNSET),
+            ("profile line inside .mlrrc", [], {"rcfile": "profile j\n[j]\nojson\n"}, PE, None), ("-P line inside .mlrrc", [], {"rcfile": "-P j\n[j]\nojson\n"}, PE, None),
+            ("prepipe line", [], {"rcfile": "prepipe cat\n"}, PE, None), ("--prepipe line", [], {"rcfile": "--prepipe cat\n"}, PE, None),
+            ("prepipex line", [], {"rcfile": "prepipex cat\n"}, PE, None),
+            ("load line", [], {"rcfile": "load f.mlr\n", "f.mlr": "func f(x) {return x}\n"}, PE, None),
+            ("mload line", [], {"rcfile": "mload f.mlr --\n", "f.mlr": "func f(x) {return x}\n"}, PE, None),
+            ("unknown flag line (syntax errors abort)", [], {"rcfile": "no-such-flag-at-all\n"}, PE, None)):
+        rc("refused: " + lab, files, [], alias=al, env=env_, wrapper=wr, expect_fail=True, inputs=csvb[:1],
+           doc="fatal error / parse error per 'What you can put in your .mlrrc' and 'Named profiles'")
     return cases, facts
 
 
@@ -468,7 +616,11 @@ def alias_cases(chk):
 
 CONV_FORMATS = ["csv", "tsv", "json", "jsonl", "dkvp", "dkvpx", "nidx", "xtab", "pprint", "markdown", "yaml", "csvlite"]
 JSONISH = ("json", "jsonl", "yaml")
+# C01 variants whose input and output separators are given separately (literal, named alias, multi-character)
+SEP_VARIANTS = ["csv-fs-semicolon", "csv-fs-pipe-name", "csv-fs-tab", "dkvp-seps", "dkvp-named-seps", "dkvp-multichar", "dkvp-ors", "csvlite-multichar",
+                "nidx-fs-comma", "nidx-fs-tab", "xtab-ps-colon", "xtab-ps-multichar", "usv", "asv", "tsvlite", "dkvpx-seps"]
 _JSON_NUM = re.compile(rb"-?(0|[1-9][0-9]*)(\.[0-9]+)?([eE][+-]?[0-9]+)?")
+_PLAIN = re.compile(rb"[A-Za-z0-9_]+")
 _UWS = " \t\n\x0b\x0c\r\x85\xa0                　﻿"
 
 
@@ -595,7 +747,7 @@ def conv_case(case):
         if recs is not None:
             break
     res = case_result(_h("conv", names, recs), len(set(names)) > 1, evals=0)
-    if recs is None or ("yaml" in names and "nidx" in names):
+    if recs is None or ("yaml" in names and any(x.positional for x in vs)):
         # (YAML reading sorts keys, C01-F6: positional formats would be permuted as a consequence)
         res["skipped"] += 1
         return res
@@ -607,18 +759,33 @@ def conv_case(case):
     sigx = {"path": "->".join(names)}
     bump(res, "conv_path:" + "->".join(names))
     jtext = C.write_json([C.jobj_from_record(r) for r in recs])
-    r = R.mlr(A.oflags + ["--ijson", "cat"], stdin=jtext)
-    res["evals"] += 1
-    if not r.ok:
-        res["skipped"] += 1
-        bump(res, "precondition_failed_write")
-        return res
-    TA = r.stdout
-    base = _read(res, A, TA, sigx, "precondition")
     yaml_read = lambda *fmts: any(f == "yaml" for f in fmts)
-    if base is None or _canon(base, yaml_read(names[0])) != _canon(recs, yaml_read(names[0])):
-        # the per-format round trip itself fails on this list: C01's subject, not a conversion defect
-        res["viol"] = []
+
+    def own_round_trip(rs, quiet):
+        """JSON -> A (Miller) -> records; None when A's own round trip does not reproduce rs."""
+        r_ = R.mlr(A.oflags + ["--ijson", "cat"], stdin=C.write_json([C.jobj_from_record(x) for x in rs]))
+        res["evals"] += 1
+        if not r_.ok:
+            return None, None
+        before = len(res["viol"])
+        got_ = _read(res, A, r_.stdout, sigx, "precondition")
+        if quiet:
+            del res["viol"][before:]
+        if got_ is None or _canon(got_, yaml_read(names[0])) != _canon(rs, yaml_read(names[0])):
+            return None, r_.stdout
+        return got_, r_.stdout
+
+    base, TA = own_round_trip(recs, True)
+    if base is None:
+        # the per-format round trip itself fails on this list: C01's subject, not a conversion defect - UNLESS it also fails once every
+        # cell is replaced by a plain word (same shape), where no C01 finding about a character class can be the reason
+        plain = [[(k if _PLAIN.fullmatch(k) else b"k%d" % j, x if _PLAIN.fullmatch(x) else b"w%d" % (i * 31 + j)) for j, (k, x) in enumerate(r_)]
+                 for i, r_ in enumerate(recs)]
+        pbase, pTA = own_round_trip(plain, False)
+        if pbase is None and all(len({k for k, _ in r_}) == len(r_) for r_ in plain):
+            add_violation(res, {"kind": "conv-precondition", "fmt": names[0]},
+                          f"{names[0]}: JSON -> {names[0]} -> JSON fails even on plain alphanumeric cells (same record shapes as the generated list)",
+                          {"argv": A.oflags + ["--ijson", "cat"], "stdin": C.write_json([C.jobj_from_record(x) for x in plain]), "text_A": _short(pTA, 2000)})
         res["skipped"] += 1
         bump(res, "precondition_failed_c01")
         return res
@@ -700,6 +867,17 @@ def conv_cases(chk):
                         continue
                     for i in range(15):
                         cases.append({"shape": "acb", "formats": [a, c, b], "seed": f"{chk.seed}/acb/{a}/{c}/{b}/{i}"})
+    # user-specified separators on ONE side, defaults on the other (reference-main-separators.md: named aliases, multi-character separators)
+    n = len(SEP_VARIANTS) * len(fm)
+    combos = [(a, b) for a in SEP_VARIANTS for b in fm if F.variant_by_name(a).fmt != b]
+    rng.shuffle(combos)
+    reps = 1 if chk.quick() else 3
+    for j, (a, b) in enumerate(combos[:60] if chk.quick() else combos):
+        for i in range(reps):
+            cases.append({"shape": "aba", "formats": [a, b] if (i + j) % 2 == 0 else [b, a], "seed": f"{chk.seed}/sep-aba/{a}/{b}/{i}"})
+        if not chk.quick() or j % 3 == 0:
+            c = rng.choice([x for x in ("json", "csv", "dkvp", "xtab") if x != b and x != F.variant_by_name(a).fmt])
+            cases.append({"shape": "acb", "formats": [a, c, b] if j % 2 else [b, a, c], "seed": f"{chk.seed}/sep-acb/{a}/{c}/{b}"})
     return cases
 
 
@@ -1016,6 +1194,15 @@ def nest_doc_case(case):
         if r.verdict == "slow":
             res["inconc"] += 1
             continue
+        if isinstance(want, tuple):
+            missing = [ln for ln in want[1] if ln not in r.stdout.split(b"\n")]
+            if not r.ok or missing:
+                add_violation(res, {"kind": "nest-documented-limit", "name": case["name"], "what": "text"},
+                              f"{case['name']}: mlr {' '.join(argv)} on {stdin!r} gives {r.stdout[:300]!r} (rc {r.rc}); documented lines missing: {missing!r}",
+                              {"argv": argv, "stdin": stdin, "expected_lines": want[1]})
+            else:
+                bump(res, "nest_documented_limit_held")
+            continue
         try:
             got = C.parse_json_records(r.stdout) if r.ok else None
         except C.CodecError:
@@ -1076,8 +1263,287 @@ def nest_doc_cases(chk):
             (["--icsv", "--ojson", "--no-auto-unflatten", "cat"], b"a.x,a.y\n1,2\n", b'[{"a.x":1,"a.y":2}]', None),
             (["--ijson", "--ojson", "cat"], b'{"a.x":1,"b":{"c":2}}', b'[{"a.x":1,"b":{"c":2}}]', None),
             (["--icsv", "--ojson", "--no-auto-unflatten", "unflatten"], b"a.x,a.y\n1,2\n", b'[{"a":{"x":1,"y":2}}]', None),
+            (["--icsv", "--ojsonl", "cat"], b"a.x,a.y\n1,2\n", b'{"a":{"x":1,"y":2}}', None),
+            (["-i", "csv", "-o", "jsonl", "--no-auto-unflatten", "cat"], b"a.x,a.y\n1,2\n", b'{"a.x":1,"a.y":2}', None),
+            (["--ijsonl", "--ojson", "cat"], b'{"a.x":1,"b":{"c":2}}\n', b'[{"a.x":1,"b":{"c":2}}]', None),
+            (["--ijsonl", "--ocsv", "cat"], b'{"a":{"x":1,"y":[2,3]}}\n', ("lines", [b"a.x,a.y.1,a.y.2", b"1,2,3"]), None),
+            (["--iyaml", "--ocsv", "cat"], b"a:\n  x: 1\n  y:\n    - 2\n    - 3\n", ("lines", [b"a.x,a.y.1,a.y.2", b"1,2,3"]), None),
+            (["--icsv", "--oyaml", "cat"], b"a.x,a.y\n1,2\n", ("lines", [b"- a:", b"    x: 1", b"    y: 2"]), None),
+            (["--icsv", "--oyaml", "--no-auto-unflatten", "cat"], b"a.x,a.y\n1,2\n", ("lines", [b"- a.x: 1", b"  a.y: 2"]), None),
+            (["--csv", "--no-auto-flatten", "put", '$c = splita($h, ".")'], b"h\na.b\n", ("lines", [b"h,c", b'a.b,"[""a"", ""b""]"']), None),
+            (["--csv", "put", '$c = splita($h, ".")'], b"h\na.b\n", ("lines", [b"h,c.1,c.2", b"a.b,a,b"]), None),
+        ]},
+        {"name": "a trailing `flatten` verb is not undone by auto-unflatten (convention, see assumptions)", "runs": [
+            (["--icsv", "--ojson", "flatten"], b"a.x,a.y\n1,2\n", b'[{"a.x":1,"a.y":2}]', None),
+            (["--icsv", "--ojson", "flatten", "then", "cat"], b"a.x,a.y\n1,2\n", b'[{"a":{"x":1,"y":2}}]', None),
+            (["--ijson", "--ojson", "flatten"], b'{"a":{"x":1,"y":[2]}}', b'[{"a.x":1,"a.y.1":2}]', None),
+            (["--ijson", "--ojson", "flatten", "then", "unflatten"], b'{"a":{"x":1,"y":[2]}}', b'[{"a":{"x":1,"y":[2]}}]', None),
+        ]},
+        {"name": "DCF keeps list-valued fields as comma lists instead of key-spreading them (file-formats.md, DCF example)", "runs": [
+            (["-i", "dcf", "-o", "json", "cat"], b"Package: foo\nVersion: 1.0\nDepends: libc6 (>= 2.0), libfoo (>= 1.2)\n\nPackage: bar\nRecommends: foo\n",
+             b'[{"Package":"foo","Version":"1.0","Depends":["libc6 (>= 2.0)","libfoo (>= 1.2)"]},{"Package":"bar","Recommends":["foo"]}]', None),
+            (["-i", "json", "-o", "dcf", "cat"], b'{"Package":"foo","Version":"1.0","Depends":["libc6 (>= 2.0)","libfoo (>= 1.2)"]}',
+             ("lines", [b"Package: foo", b"Version: 1.0", b"Depends: libc6 (>= 2.0), libfoo (>= 1.2)"]), None),
+            (["--dcf", "cat"], b"Package: foo\nDepends: libc6 (>= 2.0), libfoo (>= 1.2)\n", ("lines", [b"Package: foo", b"Depends: libc6 (>= 2.0), libfoo (>= 1.2)"]), None),
         ]},
     ]
+
+
+
+# ==========================================================================================
+# decide: the documented auto-flatten / auto-unflatten decision for every (input format, output format, last verb, flags)
+
+D_LETTER = {"csv": "c", "tsv": "t", "json": "j", "jsonl": "l", "dkvp": "d", "nidx": "n", "xtab": "x", "pprint": "p", "markdown": "m", "yaml": "y"}
+D_IN = ["json", "jsonl", "yaml", "csv", "tsv", "dkvp", "xtab", "pprint", "markdown", "csvlite", "tsvlite", "usv", "asv", "dkvpx", "dcf", "recutils"]
+D_OUT = ["json", "jsonl", "yaml", "csv", "tsv", "dkvp", "xtab", "pprint", "markdown", "csvlite", "tsvlite", "usv", "asv", "dkvpx", "nidx", "dcf",
+         "recutils"]
+D_FLAG_ONLY = ("tsvlite", "usv", "asv")        # no -i/-o name accepted (reported by the selection-spelling entries)
+D_CHAINS = {
+    "cat": [("cat", None)], "flatten": [("flatten", None)], "unflatten": [("unflatten", None)],
+    "flatten-then-cat": [("flatten", None), ("cat", None)], "cat-then-flatten": [("cat", None), ("flatten", None)],
+    "unflatten-then-flatten": [("unflatten", None), ("flatten", None)], "flatten-then-unflatten": [("flatten", None), ("unflatten", None)],
+    "put": [("put", None)], "put-then-flatten": [("put", None), ("flatten", None)], "put-then-unflatten": [("put", None), ("unflatten", None)],
+    "flatten-s": [("flatten", "@")], "flatten-s-then-cat": [("flatten", "@"), ("cat", None)], "unflatten-s": [("unflatten", "@")],
+}
+D_FLAGSETS = [[], [], ["--no-auto-flatten"], ["--no-auto-unflatten"], ["--no-auto-flatten", "--no-auto-unflatten"]]
+D_WORDS = ["pan", "eks", "wye", "zee", "hat", "x1", "Q", "u_v", "a-b", "k9"]
+D_EXTRA_OFLAGS = {"xtab": [[], ["--xvright"]], "json": [[], ["--no-jvstack"], ["--jvstack"]], "csv": [[], ["--quote-all"]],
+                  "pprint": [[], ["--right"]], "yaml": [[], ["--no-yarray"]]}
+
+
+def d_selection(rng, ifmt, ofmt):
+    """One of the documented spellings of the selection (input ifmt, output ofmt)."""
+    fl = lambda side, n: (["-" + side, n] if n == "dkvpx" else ["--" + side + ("md" if n == "markdown" and rng.random() < 0.5 else n)])
+    forms = [fl("i", ifmt) + fl("o", ofmt), fl("o", ofmt) + fl("i", ifmt)]
+    if ifmt not in D_FLAG_ONLY and ofmt not in D_FLAG_ONLY:
+        forms.append(["-i", ifmt, "-o", ofmt])
+    if ifmt in D_LETTER and ofmt in D_LETTER and not (ifmt == ofmt == "markdown"):
+        forms.append(["--%s2%s" % (D_LETTER[ifmt], D_LETTER[ofmt])])
+    if ifmt == ofmt:
+        forms.append(["--" + ifmt])
+        if ifmt not in D_FLAG_ONLY:
+            forms.append(["--io", ifmt])
+    return rng.choice(forms)
+
+
+def d_records(rng, ifmt, sep, allow_literal, other_sep):
+    """Homogeneous records: plain fields, fields whose NAMES contain the flatten separator (map-like, array-like 1..n, optionally the
+    documented literal class) and, when the input format can nest, collection-valued fields."""
+    word = lambda: rng.choice(D_WORDS)
+    num = lambda: C.JNum(str(rng.choice([0, 1, 7, 42, -3, 100])))
+    leaf = lambda: num() if rng.random() < 0.5 else word()
+    fields = [("id", "num")]
+    if ifmt in NESTABLE_FORMATS:
+        shapes = [("m", ("map", ["x", "y"], [("leaf",), ("leaf",)])), ("n", ("map", ["s"], [("map", ["w", "v"], [("leaf",), ("arr", [("leaf",), ("leaf",)])])])),
+                  ("o", ("arr", [("leaf",), ("map", ["q"], [("leaf",)])])), ("e", ("map", [], [])), ("l", ("arr", []))]
+        rng.shuffle(shapes)
+        for nm, sh in shapes[:rng.choice([1, 2, 3, 5])]:
+            fields.append((nm, sh))
+    dotted = [["p" + sep + "q"], ["r" + sep + "1", "r" + sep + "2", "r" + sep + "3"], ["s" + sep + "t" + sep + "u", "s" + sep + "t" + sep + "v"],
+              ["g" + sep + "1" + sep + "a", "g" + sep + "2" + sep + "a"], ["h" + sep + "1", "h" + sep + "3"]]
+    rng.shuffle(dotted)
+    for grp in dotted[:rng.choice([1, 2, 3])]:
+        fields += [(k, "leaf") for k in grp]
+    if allow_literal and rng.random() < 0.4:
+        fields.append((rng.choice(["b" + sep, sep + "c", "d" + sep + sep + "f"]), "leaf"))
+    if other_sep and rng.random() < 0.5:
+        fields.append(("j" + other_sep + "i", "leaf"))       # a different separator is not THE separator: stays literal
+    if rng.random() < 0.3:
+        fields.append(("em", "{}" if rng.random() < 0.5 else "[]"))
+    fields.append(("t", "word"))
+
+    def fill(sh):
+        if sh == "num":
+            return num()
+        if sh == "word":
+            return word()
+        if sh in ("{}", "[]"):
+            return sh
+        if sh == "leaf" or sh[0] == "leaf":
+            return leaf()
+        if sh[0] == "map":
+            return C.JObj((k, fill(x)) for k, x in zip(sh[1], sh[2]))
+        return [fill(x) for x in sh[1]]
+    return [C.JObj((k, fill(sh)) for k, sh in fields) for _ in range(rng.choice([1, 2, 3]))]
+
+
+NESTABLE_FORMATS = X.NESTABLE
+
+
+def d_write_input(ifmt, recs, rng):
+    if ifmt == "json":
+        return C.write_json(recs, {"shape": rng.choice(["array", "lines", "concat"])})
+    if ifmt == "jsonl":
+        return C.write_json(recs, {"shape": "lines"})
+    if ifmt == "yaml":
+        return X.write_yaml(recs, multidoc=rng.random() < 0.4)
+    brecs = [[(k.encode(), X.leaf_text(v).encode()) for k, v in r] for r in recs]
+    if ifmt == "dkvpx":
+        return C.write_dkvpx(brecs)
+    if ifmt in ("dcf", "recutils"):
+        return X.write_stanzas(brecs)
+    return F.variant_by_name(ifmt).pywrite(brecs)
+
+
+def d_read_output(ofmt, data):
+    """-> byte records (non-nestable) ; JObj list for json/jsonl."""
+    if ofmt == "json":
+        return C.read_json_document(data)
+    if ofmt == "jsonl":
+        return C.read_jsonl_document(data)
+    if ofmt == "dkvpx":
+        return C.read_dkvpx_document(data)
+    if ofmt in ("dcf", "recutils"):
+        return X.read_stanzas(data)
+    return F.variant_by_name(ofmt).pyread(data)
+
+
+def decide_case(case):
+    rng = random.Random(case["seed"])
+    ifmt, ofmt, chain_name, flags, sep = case["ifmt"], case["ofmt"], case["chain"], case["flags"], case["sep"]
+    colon_ok = not ({ifmt, ofmt} & {"dcf", "recutils"})      # `key: value` stanzas
+    sep2 = next(x for x in ([":"] if colon_ok else []) + [".", "__"] if x != sep)
+    verbs = [(n, (sep2 if s == "@" else s)) for n, s in D_CHAINS[chain_name]]
+    has_unflatten_verb = any(n == "unflatten" for n, _ in verbs)
+    recs = d_records(rng, ifmt, sep, allow_literal=not has_unflatten_verb, other_sep=(sep2 if colon_ok else None))
+    res = case_result(_h("decide", ifmt, ofmt, chain_name, flags, sep, repr(recs)), True, evals=0)
+    exp, fl, un = X.expected_output(recs, ifmt, ofmt, verbs, flags, sep)
+    sel = d_selection(rng, ifmt, ofmt)
+    extra = rng.choice(D_EXTRA_OFLAGS.get(ofmt, [[]]))
+    sepflag = [] if sep == "." else [rng.choice(["--flatsep", "--jflatsep"]), sep]
+    argv = sel + extra + sepflag + flags + X.chain_argv(verbs)
+    text = d_write_input(ifmt, recs, rng)
+    cell = f"{'nestable' if ifmt in X.NESTABLE else 'flat'}->{'nestable' if ofmt in X.NESTABLE else 'flat'}"
+    sig = {"kind": "decide", "in": ifmt, "out": ofmt, "chain": chain_name, "flags": "+".join(f[5:] for f in flags) or "default"}
+    det = {"argv": argv, "stdin": text, "model": {"auto_flatten_appended": fl, "auto_unflatten_appended": un, "flatsep": sep},
+           "documented": "flatten-unflatten.md, Manual control"}
+    stringified = any(X.is_coll(v) for r in exp for _, v in r)
+    if ofmt == "dcf" and any(X.is_coll(v) for r_ in X.apply_chain(recs, verbs, sep) for _, v in r_):
+        res["skipped"] += 1     # the DCF writer has its own serialization of list-valued fields (`Depends: a, b`: file-formats.md example); collection
+        bump(res, "decide_skipped_collection_to_dcf")    # values handed to it are outside the documented key-spreading rule
+        res["nontrivial"] = False
+        return res
+    if ofmt not in X.NESTABLE and stringified and ofmt not in ("csv", "tsv"):
+        res["skipped"] += 1     # a JSON-stringified collection spans lines / contains the field separator: not readable back from this format
+        bump(res, "decide_skipped_stringified_cell_not_readable_in_format")
+        res["nontrivial"] = False
+        return res
+    r = R.mlr(argv, stdin=text)
+    res["evals"] += 1
+    if r.verdict == "slow":
+        res["inconc"] += 1
+        return res
+    if not r.ok:
+        add_violation(res, dict(sig, what="fails"), f"{' '.join(argv)}: rc={r.rc} signal={r.signal} verdict={r.verdict}: {r.err[:200]!r}", det)
+        return res
+    out = r.stdout
+    unordered = ifmt == "yaml"
+    if ofmt == "yaml":
+        rb = R.mlr(["--iyaml", "--ojson", "cat"], stdin=out)
+        res["evals"] += 1
+        if rb.verdict == "slow":
+            res["inconc"] += 1
+            return res
+        if not rb.ok:
+            add_violation(res, dict(sig, what="yaml-output-unreadable"), f"{' '.join(argv)}: the YAML written is not readable by --iyaml: {rb.err[:200]!r}",
+                          dict(det, stdout=_short(out, 2000)))
+            return res
+        out, unordered = rb.stdout, True
+    try:
+        got = d_read_output("json" if ofmt == "yaml" else ofmt, out)
+    except C.CodecError as e:
+        add_violation(res, dict(sig, what="output-malformed"), f"{' '.join(argv)}: output is not well-formed {ofmt}: {e}", dict(det, stdout=_short(r.stdout, 2000)))
+        return res
+    diff = None
+    if len(got) != len(exp):
+        diff = f"record count {len(exp)} -> {len(got)}"
+    elif ofmt in X.NESTABLE:
+        for i, (e, g) in enumerate(zip(exp, got)):
+            d = tree_diff(X.sort_keys(e), X.sort_keys(g)) if unordered else tree_diff(e, g)
+            if d:
+                diff = f"record {i}: {d}"
+                break
+    else:
+        for i, (e, g) in enumerate(zip(exp, got)):
+            ek = [k for k, _ in e]
+            gk = [k.decode("utf-8", "replace") for k, _ in g]
+            if ofmt == "nidx":
+                ev, gv_ = [X.leaf_text(v).encode() for _, v in e], [v for _, v in g]
+                if (sorted(ev) != sorted(gv_)) if unordered else (ev != gv_) or gk != [str(j + 1) for j in range(len(ek))]:
+                    diff = f"record {i}: NIDX values {ev} expected, got {gv_}"
+                    break
+                continue
+            if (sorted(ek) != sorted(gk)) if unordered else (ek != gk):
+                diff = f"record {i}: field names {ek} expected, got {gk}"
+                break
+            gd = dict(zip(gk, [v for _, v in g]))
+            for (k, v), k2 in zip(e, ek):
+                gv = gd[k2]
+                if X.is_coll(v):
+                    try:
+                        pv = C.parse_json_values(gv)
+                        d = "not one JSON value" if len(pv) != 1 else tree_diff(X.sort_keys(v) if unordered else v, X.sort_keys(pv[0]) if unordered else pv[0])
+                    except C.CodecError as ex:
+                        d = f"not JSON text ({ex})"
+                    if d:
+                        diff = f"record {i} field {k!r}: expected the JSON-stringified collection, got {_short(gv, 80)!r}: {d}"
+                        break
+                elif X.leaf_text(v).encode() != gv:
+                    diff = f"record {i} field {k!r}: {X.leaf_text(v)!r} expected, got {_short(gv, 80)!r}"
+                    break
+            if diff:
+                break
+    bump(res, "decide_cell:" + cell)
+    bump(res, f"decide_pair:{ifmt}->{ofmt}")
+    bump(res, "decide_chain:" + chain_name)
+    bump(res, "decide_model:" + ("flatten" if fl else "unflatten" if un else "neither"))
+    if diff:
+        add_violation(res, dict(sig, what="records", cell=cell, model=("flatten" if fl else "unflatten" if un else "neither")),
+                      f"{' '.join(argv)}: by the documented rule Miller appends {'`then flatten`' if fl else '`then unflatten`' if un else 'nothing'} "
+                      f"to the chain ({ifmt} in, {ofmt} out); output differs: {diff}",
+                      dict(det, stdout=_short(r.stdout, 3000), expected=_short(C.write_json(exp, {'shape': 'lines'}), 3000)))
+    else:
+        bump(res, "decide_held")
+        res["sample"] = {"monitor": "decide", "argv": argv, "stdin": _short(text, 300), "stdout": _short(r.stdout, 300)}
+    return res
+
+
+def decide_cases(chk):
+    rng = chk.rng("decide")
+    cases = []
+    q = chk.quick()
+    chains = sorted(D_CHAINS)
+
+    def add(i, o, ch, fl, sep, tag):
+        if ({i, o} & {"dcf", "recutils"}) and sep == ":":
+            sep = "."
+        if "--no-auto-flatten" in fl and o not in X.NESTABLE and o not in ("csv", "tsv") and ch not in ("flatten", "cat-then-flatten", "put-then-flatten",
+                                                                                                      "unflatten-then-flatten", "flatten-s"):
+            if i in X.NESTABLE or ch.startswith("put") or "unflatten" in ch:
+                o = rng.choice(["csv", "tsv"])
+        cases.append({"ifmt": i, "ofmt": o, "chain": ch, "flags": fl, "sep": sep, "seed": f"{chk.seed}/decide/{tag}/{len(cases)}"})
+    core_in = ["json", "jsonl", "yaml", "csv", "dkvp"]
+    core_out = ["json", "jsonl", "yaml", "csv", "xtab"]
+    if q:
+        for i in D_IN:
+            for o in D_OUT:
+                add(i, o, rng.choice(chains), rng.choice(D_FLAGSETS), rng.choice([".", ".", ":", "__"]), "pair")
+        for i in core_in:
+            for o in core_out:
+                for ch in chains:
+                    if rng.random() < 0.5 or ch in ("cat", "flatten", "unflatten"):
+                        add(i, o, ch, rng.choice(D_FLAGSETS), rng.choice([".", ".", ":"]), "core")
+    else:
+        for i in D_IN:
+            for o in D_OUT:
+                for ch in chains:
+                    add(i, o, ch, D_FLAGSETS[len(cases) % len(D_FLAGSETS)], rng.choice([".", ".", ":", "__"]), "full")
+        for i in core_in:
+            for o in core_out:
+                for ch in chains:
+                    for fl in D_FLAGSETS[1:]:
+                        add(i, o, ch, fl, rng.choice([".", ":", "__"]), "core")
+    return cases
 
 
 MONITORS = {
@@ -1095,13 +1561,22 @@ def run(chk):
                 "x record lists from the C01 generator restricted to the intersection domain; nest: random nested JSON (depth <= 4, maps, arrays, empty "
                 "collections, number-like strings, integer-like keys) x tabular format x flatten separator. Non-trivial = conversion with A != B; nested "
                 "document with an array, an empty collection or depth >= 2; table entry whose expansion differs textually from the alias and that produced "
-                "output; distinct = hash of the case")
+                "output; distinct = hash of the case. conv additionally: 16 C01 variants with user-specified separators (literal, named alias, "
+                "multi-character; input and output separators given separately) as A or B against the 12 default-separator formats. "
+                "selection spellings: every format name of the documentation x {input, output, both} x every documented spelling. "
+                "decide: quick = every (input, output) format pair once with a random chain / flag set / separator + a core grid "
+                "{json jsonl yaml csv dkvp} x {json jsonl yaml csv xtab} x 13 chains; thorough = all pairs x 13 chains + the core grid x 4 flag sets; "
+                "records carry collection-valued fields (nestable inputs), names containing the flatten separator (map-like, array-like 1..n, "
+                "gapped, the documented literal class, a different separator) and '{}' / '[]' texts")
     if not only or "alias" in only:
         cases, facts = alias_cases(chk)
         chk.extra["alias_table"] = facts
         chk.extra["alias_entries_total"] = len(cases)
         chk.extra["alias_table_enumerated_exhaustively"] = True
         chk.pmap(alias_case, cases, chunksize=4, label="alias table")
+        scases, sfacts = spelling_cases(chk)
+        chk.extra["selection_spellings"] = dict(sfacts, groups=len(scases), spellings=sum(len(c["spellings"]) for c in scases))
+        chk.pmap(spelling_case, scases, chunksize=2, label="selection spellings")
         for msg in facts["table_inconsistencies"]:
             if msg.startswith("-p2p"):
                 continue        # reported through the entry itself (it never succeeds)
@@ -1111,10 +1586,18 @@ def run(chk):
     if not only or "nest" in only:
         chk.pmap(nest_case, nest_cases(chk), chunksize=4, label="nest")
         chk.pmap(nest_doc_case, nest_doc_cases(chk), label="nest documented limits")
+    if not only or "decide" in only:
+        chk.pmap(decide_case, decide_cases(chk), chunksize=4, label="decide (auto-flatten/unflatten decision table)")
     if not only or "docs" in only:
         chk.pmap(docreplay.replay_page, [{"page": pg} for pg in ("flatten-unflatten.md", "reference-main-separators.md", "keystroke-savers.md",
                                                                   "customization.md")], label="doc-replay")
     st = chk.stats
+    chk.extra["decide_cells"] = {k[12:]: v for k, v in st.items() if k.startswith("decide_cell:")}
+    chk.extra["decide_format_pairs_reached"] = len([k for k in st if k.startswith("decide_pair:")])
+    chk.extra["decide_chains"] = {k[13:]: v for k, v in st.items() if k.startswith("decide_chain:")}
+    chk.extra["decide_model_outcomes"] = {k[13:]: v for k, v in st.items() if k.startswith("decide_model:")}
+    for k in [k for k in st if k.split(":")[0] in ("decide_cell", "decide_pair", "decide_chain", "decide_model")]:
+        st.pop(k)
     chk.extra["conversion_paths_reached"] = len([k for k in st if k.startswith("conv_path:")])
     chk.extra["nest_format_x_separator_reached"] = sorted(k[5:] for k in st if k.startswith("nest:"))
     chk.extra["nest_numeral_key_families_reached"] = {k[20:]: v for k, v in st.items() if k.startswith("nest_numeral_family:")}
@@ -1138,5 +1621,26 @@ def run(chk):
         "alias: expansions are computed from the text the binary prints (`help flag` sentence, legend, matrix position, 'Keystroke-saver for' sentence, "
         "the alias table's right-hand column) and from file-formats.md / customization.md; separator values are additionally compared with a hard-coded "
         "copy of reference-main-separators.md; .mlrrc forms are limited to the documented ones ('--flag', 'flag', '--option value', 'option value', "
-        "comments, blank lines) via MLRRC=<file>, ./.mlrrc and --norc; `key=value` lines and profiles are not in the statement",
+        "comments, blank lines); `key=value` lines and CRLF-terminated lines are not documented and not run; relative HOME / XDG_CONFIG_HOME "
+        "directories inside the scratch cwd stand for the user's directories",
+        "alias/must-succeed: every battery input is well-formed for the entry's input format, so a failing EXPANSION is a violation; the one exemption "
+        "is the documented data error 'schema change' of the CSV/TSV writers on the heterogeneous / nested battery inputs",
+        "selection spellings: reference-main-flag-list.md defines `-i N` as the same as `--iN` (`-o N` / `--oN`, `--io N` / `--N`) by example "
+        "('-i csv is the same as --icsv'; reference-verbs.md join: 'and so on'); the rule is applied to every N for which the File-format flags "
+        "section lists an --iN / --oN / --N flag and to the names of shell-completion.md (gen excluded: it reads no input)",
+        "decide: the rule is the prose of flatten-unflatten.md 'Manual control' (non-JSON/YAML output => `then flatten` appended unless "
+        "--no-auto-flatten; JSON/YAML output and non-JSON/YAML input => `then unflatten` appended unless --no-auto-unflatten), JSON Lines counting as "
+        "JSON (file-formats.md). Two conventions the prose does not state are pinned and listed here: (1) when the last verb written by the user is "
+        "`flatten`, no unflatten is appended after it; (2) DCF output is not key-spread (its writer has its own comma-list form for list-valued "
+        "fields, the inverse of the documented reading example): collection values reaching a DCF writer are skipped in `decide` and the comma-list "
+        "form is pinned by three documented-example cases",
+        "decide: `unflatten` 'reverses flatten' (verb help): names split at the separator, maps keyed exactly 1..n become arrays, the texts '{}' / '[]' "
+        "become empty collections; names of the documented non-inferencing class (leading / trailing / doubled separator) are generated only when "
+        "no explicit `unflatten` verb is in the chain (the page defines that class for the automatic conversion only); nested maps of JSON input never "
+        "carry numeral keys here (the numeral families are the nest monitor's subject); base names of separator-carrying fields are distinct from "
+        "all other field names (no collisions on unflatten)",
+        "decide: with --no-auto-flatten a collection reaching a non-nestable writer is JSON-stringified (flatten-unflatten.md example): the cell is "
+        "compared after JSON-parsing it, and only for CSV / TSV output (multi-line / separator-carrying JSON text is not readable back from the other "
+        "formats: skipped); YAML output is read back through --iyaml --ojson and, whenever YAML is read, keys are compared as sets at every level "
+        "(C01-F6: the YAML reader sorts keys); leaves are compared by text",
     ]
